@@ -367,6 +367,7 @@ impl BytecodeBuilder {
                 | Op::SetVar { .. }
                 | Op::DeclareVar { .. }
                 | Op::DeclareVarHoisted { .. }
+                | Op::DeclareLexical { .. }
                 | Op::GetGlobal { .. }
                 | Op::SetGlobal { .. }
                 | Op::CreateObject { .. }
